@@ -91,6 +91,7 @@ package parse
 //@ func (*Parser).parseSpecs
 //@   errprop-nil Group).Wait mergo.Merge parse.parseString
 //@   structure no-channel-ops
+//@   assert @store:F.parse.sourceCtxHelper.filename [recorded-file-is-the-file-being-parsed] stored == replaceAll(src.filename, "\\", "/")
 
 // ---- C01 / C07: parser panics become a ParseError; per-parse lexer state is always released
 
